@@ -28,8 +28,7 @@ from cattrs.disambiguators import is_supported_union
 from vcommon import q, write_if_changed
 
 
-class Reject(Exception):
-    pass
+from pyty import Reject  # noqa: E402
 
 
 from lsprotocol import _hooks, converters, validators  # noqa: E402
@@ -38,46 +37,7 @@ from lsprotocol import types as T  # noqa: E402
 conv = converters.get_converter()
 
 
-def ty(t):
-    o = get_origin(t)
-    if isinstance(t, typing.ForwardRef):
-        return "(PyFwd %s)" % q(t.__forward_arg__)
-    if isinstance(t, str):
-        return "(PyFwd %s)" % q(t)
-    if t is Any:
-        return "PyAny"
-    if t is type(None):
-        return "PyNone"
-    if t is int:
-        return "PyInt"
-    if t is str:
-        return "PyStr"
-    if t is bool:
-        return "PyBool"
-    if t is float:
-        return "PyFloat"
-    if o is Union:
-        return "(PyUnion [%s])" % "; ".join(sorted({ty(a) for a in get_args(t)}))
-    if o in (collections.abc.Sequence, list):
-        return "(PySeq %s)" % ty(get_args(t)[0])
-    if o is dict:
-        return "(PyDict %s %s)" % tuple(ty(a) for a in get_args(t))
-    if o is tuple:
-        args = get_args(t)
-        if len(args) == 2 and args[1] is Ellipsis:
-            raise Reject("homogeneous tuple type %r" % (t,))
-        return "(PyTuple [%s])" % "; ".join(ty(a) for a in args)
-    if o is typing.Literal:
-        if not all(isinstance(a, str) for a in get_args(t)):
-            raise Reject("non-string Literal %r" % (t,))
-        return "(PyLit [%s])" % "; ".join(q(a) for a in get_args(t))
-    if isinstance(t, type) and issubclass(t, enum.Enum):
-        return "(PyEnum %s)" % q(t.__name__)
-    if isinstance(t, type) and attrs.has(t):
-        return "(PyCls %s)" % q(t.__name__)
-    if isinstance(t, type) and t.__module__ == T.__name__:
-        return "(PyOpaque %s)" % q(t.__name__)
-    raise Reject("type outside grammar: %.200r" % (t,))
+from pyty import ty  # noqa: E402,F401
 
 
 def vkind(v):
@@ -108,10 +68,20 @@ def ident(n):
 
 
 def class_row(name, cls, stats):
-    sfn = conv.get_structure_hook(cls)
     ufn = conv.get_unstructure_hook(cls)
-    so = getattr(sfn, "overrides", None)
     uo = getattr(ufn, "overrides", None)
+    poisoned = False
+    try:
+        sfn = conv.get_structure_hook(cls)
+        so = getattr(sfn, "overrides", None)
+    except TypeError as e:
+        # cattrs cannot GENERATE the structure function of this class (a field's union has no usable disambiguator): every
+        # structuring of the class raises in the real converter.  Model: the class gets a required pseudo-field of an unhandled
+        # type, so the model raises on every input as well; wire names are taken from the unstructure overrides.
+        if "no usable non-default attributes" not in str(e):
+            raise
+        poisoned, so = True, uo
+        stats["classes_without_structure_fn"] = stats.get("classes_without_structure_fn", 0) + 1
     if so is None or uo is None:
         raise Reject("class %s is not (un)structured by a cattrs-generated dict function" % name)
     fs = []
@@ -138,6 +108,9 @@ def class_row(name, cls, stats):
         fs.append("{| fname := %s; fwire := %s; fwireo := %s; ftype := %s; fdefault := %s; fval := %s; fvalopt := %s; fomit := %s |}"
                   % (q(a.name), q(win), q(wout), ty(a.type), d, vk, b(opt), b(omit)))
         stats["fields"] += 1
+    if poisoned:
+        fs.append("{| fname := \"cattrs_cannot_generate_structure_fn\"; fwire := \"\\u0000cattrs\"; fwireo := \"\\u0000cattrs\"; ftype := (PyFwd \"<no structure function>\"); "
+                  "fdefault := NoDefault; fval := VNoVal; fvalopt := false; fomit := false |}")
     return "Definition c_%s : string * list fld := (%s, [%s])." % (ident(name), q(name), ";\n   ".join(fs))
 
 
@@ -358,7 +331,13 @@ def main(out_v, out_json):
     for u in sorted(seen, key=ty):
         if u in registered or is_optional(u) or not is_supported_union(u):
             continue
-        h = conv.get_structure_hook(u)
+        try:
+            h = conv.get_structure_hook(u)
+        except Exception:
+            # cattrs cannot build a disambiguator (e.g. "has no usable non-default attributes"): structuring at this union raises the
+            # same error in the real converter, so the union has no handler in the model either (reported by W_disp as missing)
+            stats["cattrs_disambiguator_errors"] = stats.get("cattrs_disambiguator_errors", 0) + 1
+            continue
         cells = dict(zip(h.__code__.co_freevars, [c.cell_contents for c in (h.__closure__ or ())]))
         dis = cells.get("dis_fn")
         if dis is None:
